@@ -110,6 +110,25 @@ def run_c14(tier, seed):
                 if gen == "can_c":
                     c_ok = 1 if obs["ret"] == "Ok" else 0
                     cmsgs = scan_c_sources(out) if c_ok else []
+        if i % 4 == 0:
+            # one manager and ONE parsed schema object used for several generators in a row (nop or dbc before can_c):
+            # the verifier accumulates the plug-ins' checks and must run them again for every call
+            from fcp.codegen import GeneratorManager
+            from fcp.verifier import make_general_verifier
+            mgr = GeneratorManager(make_general_verifier())
+            fcp3, _ = pycodec.parse_schema(sch)
+            reg = []
+            for g in (("nop", "can_c", "dbc") if i % 8 == 0 else ("dbc", "can_c")):
+                prepare_dir(out, "unrelated", g)
+                obs = run_call(g, fcp3, out, "api", manager=mgr)
+                reg = reg + [g]
+                tid = "f%d-seq-%s" % (i, "-".join(reg))
+                tree = abs_for_tlc(sch)
+                tree.setdefault("services", [])
+                tree.setdefault("devices", [])
+                gate_traces.append({"id": tid, "gen": g, "registered": list(reg), "tree": tree, "fs0": fs_json(obs["fs0"]),
+                                    "fs1": fs_json(obs["fs1"]), "events": obs["events"], "ret": obs["ret"], "files": obs["files"]})
+                meta[tid] = (sch, label + ":same-object-after-" + "-".join(reg[:-1]), g, "unrelated", obs)
         tree = abs_for_tlc(sch)
         tree.setdefault("services", [])
         tree.setdefault("devices", [])
